@@ -1,28 +1,43 @@
 #!/usr/bin/env python3
-# Generates the repetitive C01 entry-point contracts (one block per public entry point).
+# Generates the repetitive entry-point contracts (C01 gating + C12 termination), one block per public entry point.
 verbs = [("Panic","PanicLevel"),("Fatal","FatalLevel"),("Error","ErrorLevel"),("Warn","WarnLevel"),("Info","InfoLevel"),
          ("Debug","DebugLevel"),("Trace","TraceLevel"),("Print","AlwaysLevel"),("OK","OKLevel"),("Success","SuccessLevel"),("Fail","FailLevel")]
 out = []
-def gate(recv_level, sev, tag=""):
-    return [f"//@   ensures [C01.gate] implies(!old(specAdmits({recv_level}, {sev})), ghost.emits == old(ghost.emits))",
-            f"//@   ensures [C01.emit] implies(old(specAdmits({recv_level}, {sev})), ghost.emits > old(ghost.emits))"]
+def block(name, recv, sev, callee, callee_assert, const_sev=True):
+    ent = "s" if recv == "s" else "specDefaultEntry()"
+    req = "s != nil" if recv == "s" else "specDefaultEntry() != nil"
+    lv = f"{ent}.level"
+    b = [f"//@ func {name}", "//@   props C01 C12", f"//@   requires {req}", "//@   assigns everything"]
+    term = f"specAdmits({lv}, {sev}) && specInterrupts() && isnil({ent}.handlerOpt)"
+    if const_sev:
+        if sev == "PanicLevel":
+            b.append(f"//@   panics [C12.panic] when {term}")
+        elif sev == "FatalLevel":
+            b.append(f"//@   exits [C12.exit] when {term}")
+    else:
+        b.append(f"//@   panics [C12.panic] when {sev} == PanicLevel && {term}")
+        b.append(f"//@   exits [C12.exit] when {sev} == FatalLevel && {term}")
+    b += [f"//@   ensures [C01.gate] implies(!old(specAdmits({lv}, {sev})), ghost.emits == old(ghost.emits))",
+          f"//@   ensures [C01.emit] implies(old(specAdmits({lv}, {sev})), ghost.emits > old(ghost.emits))",
+          f"//@   at call {callee} assert [C01.sev] {callee_assert}", "//@"]
+    return b
 for v, lvl in verbs:
-    out += [f"//@ func (*Entry).{v}", "//@   props C01", "//@   requires s != nil", "//@   assigns everything", "//@   maypanic"] + gate("s.level", lvl) + \
-           [f"//@   at call (*Entry).log1 assert [C01.sev] callee.lvl == {lvl} && callee.s == s", "//@"]
+    out += block(f"(*Entry).{v}", "s", lvl, "(*Entry).log1", f"callee.lvl == {lvl} && callee.s == s")
+out += block("(*Entry).Println", "s", "AlwaysLevel", "(*Entry).log1", "callee.lvl == AlwaysLevel && callee.s == s")
 for v, lvl in verbs + [("Println","AlwaysLevel")]:
-    out += [f"//@ func (*Entry).{v}Context", "//@   props C01", "//@   requires s != nil", "//@   assigns everything", "//@   maypanic"] + gate("s.level", lvl) + \
-           [f"//@   at call (*Entry).logContext assert [C01.sev] callee.lvl == {lvl} && callee.s == s", "//@"]
+    out += block(f"(*Entry).{v}Context", "s", lvl, "(*Entry).logContext", f"callee.lvl == {lvl} && callee.s == s")
 for v in ["LogAttrs", "Logit"]:
-    out += [f"//@ func (*Entry).{v}", "//@   props C01", "//@   requires s != nil", "//@   assigns everything", "//@   maypanic"] + gate("s.level", "level") + \
-           ["//@   at call (*Entry).logContext assert [C01.sev] callee.lvl == level && callee.s == s", "//@"]
+    out += block(f"(*Entry).{v}", "s", "level", "(*Entry).logContext", "callee.lvl == level && callee.s == s", const_sev=False)
+out += block("(*Entry).Log", "s", "logsloglevel2Level(level)", "(*Entry).logContext", "callee.lvl == logsloglevel2Level(level) && callee.s == s", const_sev=False)
 for v, lvl in [("Infof","InfoLevel"),("Warnf","WarnLevel"),("Errorf","ErrorLevel")]:
-    out += [f"//@ func (*Entry).{v}", "//@   props C01", "//@   requires s != nil", "//@   assigns everything", "//@   maypanic"] + gate("s.level", lvl) + \
-           [f"//@   at call (*Entry).logContext assert [C01.sev] callee.lvl == {lvl} && callee.s == s", "//@"]
+    out += block(f"(*Entry).{v}", "s", lvl, "(*Entry).logContext", f"callee.lvl == {lvl} && callee.s == s")
+out += block("(*Entry).log1", "s", "lvl", "(*Entry).logContext", "callee.lvl == lvl && callee.s == s", const_sev=False)
 # package level
 for v, lvl in verbs:
-    out += [f"//@ func {v}", "//@   props C01", "//@   requires specDefaultEntry() != nil", "//@   assigns everything", "//@   maypanic"] + gate("specDefaultEntry().level", lvl) + \
-           [f"//@   at call logctx assert [C01.sev] callee.lvl == {lvl}", "//@"]
+    out += block(v, "d", lvl, "logctx", f"callee.lvl == {lvl}")
+out += block("Println", "d", "AlwaysLevel", "logctx", "callee.lvl == AlwaysLevel")
 for v, lvl in verbs + [("Println","AlwaysLevel")]:
-    out += [f"//@ func {v}Context", "//@   props C01", "//@   requires specDefaultEntry() != nil", "//@   assigns everything", "//@   maypanic"] + gate("specDefaultEntry().level", lvl) + \
-           [f"//@   at call logctxctx assert [C01.sev] callee.lvl == {lvl}", "//@"]
+    out += block(f"{v}Context", "d", lvl, "logctxctx", f"callee.lvl == {lvl}")
+out += block("logctx", "d", "lvl", "logctxctx", "callee.lvl == lvl", const_sev=False)
+out += block("logctxctx", "d", "lvl", "(*Entry).logContext", "callee.lvl == lvl && callee.s == specDefaultEntry()", const_sev=False)
 print("\n".join(out))
